@@ -159,7 +159,8 @@ class Polygon(Shape2D):
         if normal is None:
             self._normal = computed_normal
         else:
-            norm_normal = np.asarray(normal, dtype=np.float64)
+            # Copy so that normalizing does not write into the caller's array.
+            norm_normal = np.array(normal, dtype=np.float64)
             norm_normal /= np.linalg.norm(normal)
 
             if not np.isclose(np.abs(np.dot(computed_normal, norm_normal)), 1):
